@@ -832,7 +832,12 @@ impl<'a> Lexer<'a> {
                         next_token = Some(t);
                         break;
                     }
-                    None => (),
+                    None => {
+                        // a recorded error must not be overwritten by a later token
+                        if self.result.is_err() {
+                            break;
+                        }
+                    }
                 },
                 None => {
                     self.at_end = true;
